@@ -156,6 +156,19 @@ fn search_body<const N: usize, const L: usize, const BUF: usize>(c05: bool, c06:
         Ok(z) => z,
         Err(_) => return,
     };
+    if L > 0 {
+        // known finding F3 (role two-transitions-at-one-utc-instant): two table transitions one leap count apart around an inserted
+        // leap second denote the same UTC instant; the intermediate type is never in force and gap entries name it. Excluded here.
+        let mut q = 0;
+        while q + 1 < n {
+            let a = zone.unix_leap_time_to_unix_time(tr[q].unix_leap_time());
+            let b = zone.unix_leap_time_to_unix_time(tr[q + 1].unix_leap_time());
+            if let (Ok(a), Ok(b)) = (a, b) {
+                kani::assume(a != b);
+            }
+            q += 1;
+        }
+    }
     let mut buf: [Option<FoundDateTimeKind>; BUF] = [None; BUF];
     let list = match DateTime::find_n(&mut buf, Y, 1, 1, 0, 0, 0, NS, zone) {
         Ok(l) => l,
@@ -442,4 +455,483 @@ fn c17_vec_equals_buffer_n1() {
         _ => assert!(false),
     }
     core::mem::forget(rv);
+}
+
+// ------------------------------------------------------------------ C05 / C06 on DST-rule zones (thorough tier): real rule arithmetic,
+// concrete searched year Y0, civil count anywhere in that year +- 2 days
+use crate::timezone::{AlternateTime, Julian0WithLeap, Julian1WithoutLeap, MonthWeekDay, RuleDay};
+
+const fn jan1(y: i32) -> i64 {
+    crate::datetime::days_since_unix_epoch(y, 1, 1) * 86400
+}
+
+/// S_yearwin(Y0): exact year for instants within [Jan 1 Y0-2, Jan 1 Y0+3), other fields packed; outside the window: assert!(false)
+fn yearwin<const Y0: i32>(t: i64, nanoseconds: u32) -> Result<UtcDateTime, TzError> {
+    let b = [jan1(Y0 - 2), jan1(Y0 - 1), jan1(Y0), jan1(Y0 + 1), jan1(Y0 + 2), jan1(Y0 + 3)];
+    assert!(b[0] <= t && t < b[5]);
+    let mut year = Y0 - 2;
+    let mut i = 1;
+    while i < 5 {
+        if t >= b[i] {
+            year = Y0 - 2 + i as i32;
+        }
+        i += 1;
+    }
+    let q = t.to_le_bytes();
+    Ok(UtcDateTime { year, month: q[0], month_day: q[1], hour: q[2], minute: q[3], second: 0, nanoseconds })
+}
+fn stub_yearwin_2000(t: i64, ns: u32) -> Result<UtcDateTime, TzError> {
+    yearwin::<2000>(t, ns)
+}
+fn stub_yearwin_2001(t: i64, ns: u32) -> Result<UtcDateTime, TzError> {
+    yearwin::<2001>(t, ns)
+}
+
+fn any_rule_day(tag: u8) -> Option<RuleDay> {
+    match tag {
+        0 => Julian1WithoutLeap::new(kani::any()).ok().map(RuleDay::Julian1WithoutLeap),
+        1 => Julian0WithLeap::new(kani::any()).ok().map(RuleDay::Julian0WithLeap),
+        _ => MonthWeekDay::new(kani::any(), kani::any(), kani::any()).ok().map(RuleDay::MonthWeekDay),
+    }
+}
+
+fn rule_search_body<const Y0: i32>(ts: u8, te: u8) {
+    let std = any_ltt();
+    let dst = any_ltt();
+    let (ds, de) = match (any_rule_day(ts), any_rule_day(te)) {
+        (Some(a), Some(b)) => (a, b),
+        _ => return,
+    };
+    let st: i32 = kani::any();
+    let et: i32 = kani::any();
+    let alt = match AlternateTime::new(std, dst, ds, st, de, et) {
+        Ok(a) => a,
+        Err(_) => return,
+    };
+    kani::assume(std.ut_offset() != dst.ut_offset());
+    // known finding F2 (role dst-rule-tie-year): start and end coincide in some but not all of the years either algorithm consults
+    let su = st as i64 - std.ut_offset() as i64;
+    let eu = et as i64 - dst.ut_offset() as i64;
+    let mut ties = 0;
+    let mut k = 0;
+    while k < 5 {
+        let y = Y0 - 2 + k;
+        if ds.unix_time(y, su) == de.unix_time(y, eu) {
+            ties += 1;
+        }
+        k += 1;
+    }
+    kani::assume(ties == 0 || ties == 5);
+    let c: i64 = kani::any();
+    kani::assume(jan1(Y0) - 2 * 86400 <= c && c <= jan1(Y0 + 1) + 2 * 86400);
+    CIVIL.store(c, AO::Relaxed);
+    let types = [std, dst];
+    let rule = Some(TransitionRule::Alternate(alt));
+    let zone = match TimeZoneRef::new(&[], &types, &[], &rule) {
+        Ok(z) => z,
+        Err(_) => return,
+    };
+    let mut buf: [Option<FoundDateTimeKind>; 8] = [None; 8];
+    let list = match DateTime::find_n(&mut buf, Y0, 1, 1, 0, 0, 0, NS, zone) {
+        Ok(l) => l,
+        Err(_) => return,
+    };
+    let k = list.count();
+    assert!(list.is_exhaustive());
+    let data = list.data();
+    let i: usize = kani::any();
+    kani::assume(i < k);
+    let ei = match &data[i] {
+        Some(e) => e,
+        None => {
+            assert!(false);
+            return;
+        }
+    };
+    match ei {
+        FoundDateTimeKind::Normal(dt) => {
+            assert!(dt.unix_time as i128 + dt.local_time_type.ut_offset() as i128 == c as i128);
+            match zone.find_local_time_type(dt.unix_time) {
+                Ok(l) => assert!(l.ut_offset() == dt.local_time_type.ut_offset() && l.is_dst() == dt.local_time_type.is_dst()),
+                Err(_) => assert!(false),
+            }
+        }
+        FoundDateTimeKind::Skipped { before_transition: b, after_transition: a } => {
+            let t = b.unix_time;
+            let (ob, oa) = (b.local_time_type.ut_offset() as i64, a.local_time_type.ut_offset() as i64);
+            assert!(a.unix_time == t && ob < oa && t + ob <= c && c < t + oa);
+            assert!(matches!(zone.find_local_time_type(t), Ok(l) if l.ut_offset() as i64 == oa));
+            assert!(matches!(zone.find_local_time_type(t - 1), Ok(l) if l.ut_offset() as i64 == ob));
+        }
+    }
+    // completeness for an arbitrary instant of the window
+    let u: i64 = kani::any();
+    kani::assume(jan1(Y0 - 1) <= u && u < jan1(Y0 + 2));
+    if let Ok(l) = zone.find_local_time_type(u) {
+        if u + l.ut_offset() as i64 == c {
+            let mut found = false;
+            let mut j = 0;
+            while j < k {
+                if let Some(FoundDateTimeKind::Normal(d)) = &data[j] {
+                    if d.unix_time == u {
+                        found = true;
+                    }
+                }
+                j += 1;
+            }
+            assert!(found);
+        }
+    }
+    let j: usize = kani::any();
+    if j < k && i < j {
+        if let Some(ej) = &data[j] {
+            assert!(entry_instant(ei) < entry_instant(ej));
+        }
+    }
+    kani::cover!(k == 2);
+    kani::cover!(matches!(ei, FoundDateTimeKind::Skipped { .. }));
+}
+
+macro_rules! rule_harness {
+    ($name:ident, $y:expr, $stub:ident, $ts:expr, $te:expr) => {
+        #[kani::proof]
+        #[kani::unwind(9)]
+        #[kani::stub(crate::datetime::unix_time, stub_unix_time)]
+        #[kani::stub(crate::datetime::UtcDateTime::from_timespec, $stub)]
+        fn $name() {
+            rule_search_body::<$y>($ts, $te);
+        }
+    };
+}
+rule_harness!(c05_rule_2000_mwd_mwd, 2000, stub_yearwin_2000, 2, 2);
+rule_harness!(c05_rule_2001_mwd_mwd, 2001, stub_yearwin_2001, 2, 2);
+rule_harness!(c05_rule_2000_j1_j0, 2000, stub_yearwin_2000, 0, 1);
+rule_harness!(c05_rule_2001_j0_mwd, 2001, stub_yearwin_2001, 1, 2);
+
+// ------------------------------------------------------------------ C05 / C06 on DST-rule zones, ALL years and ALL rules: the rule-day
+// instants and the calendar are abstracted by their contracts (discharged by Engine A in C04: L1 meaning of rule days, K1 locality,
+// K2 yearly spacing, K3 year of an instant, K4 year length); search and forward lookup are the real code.
+use core::sync::atomic::AtomicI32;
+static ABS_BASE: AtomicI32 = AtomicI32::new(0);
+static ABS_J: [AtomicI64; 6] = [AtomicI64::new(0), AtomicI64::new(0), AtomicI64::new(0), AtomicI64::new(0), AtomicI64::new(0), AtomicI64::new(0)];
+static ABS_S: [AtomicI64; 5] = [AtomicI64::new(0), AtomicI64::new(0), AtomicI64::new(0), AtomicI64::new(0), AtomicI64::new(0)];
+static ABS_E: [AtomicI64; 5] = [AtomicI64::new(0), AtomicI64::new(0), AtomicI64::new(0), AtomicI64::new(0), AtomicI64::new(0)];
+
+/// S_ruleday: start day is the (arbitrary, fixed) marker J1, end day the marker J2; the instant is the abstract table entry of that year
+fn stub_rule_abs(d: &RuleDay, year: i32, _dt: i64) -> i64 {
+    let k = year as i64 - ABS_BASE.load(AO::Relaxed) as i64 + 2;
+    assert!(0 <= k && k < 5);
+    let is_start = matches!(d, RuleDay::Julian1WithoutLeap(x) if x.get() == 1);
+    if is_start {
+        ABS_S[k as usize].load(AO::Relaxed)
+    } else {
+        ABS_E[k as usize].load(AO::Relaxed)
+    }
+}
+/// S_year: K3 - the year of an instant is the one whose 1 January brackets it
+fn stub_year_abs(t: i64, nanoseconds: u32) -> Result<UtcDateTime, TzError> {
+    if !(MIN_T <= t && t <= MAX_T) {
+        return Err(TzError::OutOfRange);
+    }
+    assert!(ABS_J[0].load(AO::Relaxed) <= t && t < ABS_J[5].load(AO::Relaxed));
+    let mut year = ABS_BASE.load(AO::Relaxed) - 2;
+    let mut i = 1;
+    while i < 5 {
+        if t >= ABS_J[i].load(AO::Relaxed) {
+            year = ABS_BASE.load(AO::Relaxed) - 2 + i as i32;
+        }
+        i += 1;
+    }
+    let q = t.to_le_bytes();
+    Ok(UtcDateTime { year, month: q[0], month_day: q[1], hour: q[2], minute: q[3], second: 0, nanoseconds })
+}
+
+const DAY: i64 = 86400;
+const DTMAX: i64 = 7 * DAY + 26 * 3600;
+
+fn abs_rule_body(c05: bool, c06: bool) {
+    let base: i32 = kani::any();
+    kani::assume(i32::MIN + 4 <= base && base <= i32::MAX - 4);
+    ABS_BASE.store(base, AO::Relaxed);
+    // calendar: six consecutive 1 Januaries, each year 365 or 366 days (K4)
+    let j0: i64 = kani::any();
+    kani::assume(MIN_T + 400 * DAY <= j0 && j0 <= MAX_T - 2600 * DAY);
+    let mut j = [j0; 6];
+    let mut i = 1;
+    while i < 6 {
+        let leap: bool = kani::any();
+        j[i] = j[i - 1] + if leap { 366 * DAY } else { 365 * DAY };
+        i += 1;
+    }
+    i = 0;
+    while i < 6 {
+        ABS_J[i].store(j[i], AO::Relaxed);
+        i += 1;
+    }
+    let std = any_ltt();
+    let dst = any_ltt();
+    kani::assume(-25 * 3600 < std.ut_offset() && std.ut_offset() < 26 * 3600 && -25 * 3600 < dst.ut_offset() && dst.ut_offset() < 26 * 3600);
+    kani::assume(std.ut_offset() != dst.ut_offset());
+    let st: i32 = kani::any();
+    let et: i32 = kani::any();
+    kani::assume(-7 * 86400 < st && st < 7 * 86400 && -7 * 86400 < et && et < 7 * 86400);
+    let su = st as i64 - std.ut_offset() as i64;
+    let eu = et as i64 - dst.ut_offset() as i64;
+    // rule-day instants of the years base-2 .. base+2: K1 (within the year, shifted by the UTC day time) and K2 (364..371 days apart)
+    let s: [i64; 5] = kani::any();
+    let e: [i64; 5] = kani::any();
+    i = 0;
+    while i < 5 {
+        kani::assume(j[i] + su <= s[i] && s[i] <= j[i] + 365 * DAY + su);
+        kani::assume(j[i] + eu <= e[i] && e[i] <= j[i] + 365 * DAY + eu);
+        if i > 0 {
+            kani::assume(364 * DAY <= s[i] - s[i - 1] && s[i] - s[i - 1] <= 371 * DAY);
+            kani::assume(364 * DAY <= e[i] - e[i - 1] && e[i] - e[i - 1] <= 371 * DAY);
+        }
+        ABS_S[i].store(s[i], AO::Relaxed);
+        ABS_E[i].store(e[i], AO::Relaxed);
+        i += 1;
+    }
+    // the property's quantifier: start/end interleave the same way in every year (what the constructor enforces is C11)
+    let mut north = true;
+    let mut south = true;
+    let mut ties = 0;
+    i = 0;
+    while i < 5 {
+        if !(s[i] <= e[i]) {
+            north = false;
+        }
+        if !(e[i] <= s[i]) {
+            south = false;
+        }
+        if i < 4 {
+            if !(e[i] <= s[i + 1]) {
+                north = false;
+            }
+            if !(s[i] <= e[i + 1]) {
+                south = false;
+            }
+        }
+        if s[i] == e[i] {
+            ties += 1;
+        }
+        i += 1;
+    }
+    kani::assume(north || south);
+    // known finding F2 (role dst-rule-tie-year): start and end coincide in some but not all of the years consulted
+    kani::assume(ties == 0 || ties == 5);
+    let c: i64 = kani::any();
+    kani::assume(j[2] <= c && c < j[3]);
+    CIVIL.store(c, AO::Relaxed);
+    let alt = crate::timezone::verif_kani::raw_alt(
+        std,
+        dst,
+        RuleDay::Julian1WithoutLeap(Julian1WithoutLeap::new(1).unwrap()),
+        st,
+        RuleDay::Julian1WithoutLeap(Julian1WithoutLeap::new(2).unwrap()),
+        et,
+    );
+    let types = [std, dst];
+    let rule = Some(TransitionRule::Alternate(alt));
+    let zone = match TimeZoneRef::new(&[], &types, &[], &rule) {
+        Ok(z) => z,
+        Err(_) => return,
+    };
+    let mut buf: [Option<FoundDateTimeKind>; 8] = [None; 8];
+    let list = match DateTime::find_n(&mut buf, base, 1, 1, 0, 0, 0, NS, zone) {
+        Ok(l) => l,
+        Err(_) => {
+            assert!(false);
+            return;
+        }
+    };
+    let k = list.count();
+    assert!(list.is_exhaustive());
+    let data = list.data();
+    assert!(k >= 1 && k <= 3);
+    kani::cover!(k == 1);
+    kani::cover!(k == 2);
+    let i: usize = kani::any();
+    kani::assume(i < k);
+    let ei = match &data[i] {
+        Some(x) => x,
+        None => {
+            assert!(false);
+            return;
+        }
+    };
+    if c05 {
+        if let FoundDateTimeKind::Normal(dt) = ei {
+            assert!(dt.year == base && dt.month == 1 && dt.month_day == 1 && dt.nanoseconds == NS);
+            assert!(dt.unix_time + dt.local_time_type.ut_offset() as i64 == c);
+            match zone.find_local_time_type(dt.unix_time) {
+                Ok(l) => assert!(l.ut_offset() == dt.local_time_type.ut_offset() && l.is_dst() == dt.local_time_type.is_dst()),
+                Err(_) => assert!(false),
+            }
+        }
+        let u: i64 = kani::any();
+        kani::assume(j[1] <= u && u < j[4]);
+        if let Ok(l) = zone.find_local_time_type(u) {
+            if u + l.ut_offset() as i64 == c {
+                let mut found = false;
+                let mut q = 0;
+                while q < k {
+                    if let Some(FoundDateTimeKind::Normal(d)) = &data[q] {
+                        if d.unix_time == u {
+                            found = true;
+                        }
+                    }
+                    q += 1;
+                }
+                assert!(found);
+            }
+        }
+        assert!(list.unique().is_some() == (k == 1 && matches!(&data[0], Some(FoundDateTimeKind::Normal(_)))));
+        kani::cover!(matches!(ei, FoundDateTimeKind::Normal(_)) && south && !north);
+    }
+    if c06 {
+        if let FoundDateTimeKind::Skipped { before_transition: b, after_transition: a } = ei {
+            let t = b.unix_time;
+            let (ob, oa) = (b.local_time_type.ut_offset() as i64, a.local_time_type.ut_offset() as i64);
+            assert!(a.unix_time == t && ob < oa && t + ob <= c && c < t + oa);
+            assert!(matches!(zone.find_local_time_type(t), Ok(l) if l.ut_offset() as i64 == oa));
+            assert!(matches!(zone.find_local_time_type(t - 1), Ok(l) if l.ut_offset() as i64 == ob));
+        }
+        // conversely: a forward jump of the rule (an abstract start/end instant where the offset grows) containing c is reported
+        let g: usize = kani::any();
+        kani::assume(1 <= g && g <= 3);
+        let which: bool = kani::any();
+        let t = if which { s[g] } else { e[g] };
+        if let (Ok(lb), Ok(la)) = (zone.find_local_time_type(t - 1), zone.find_local_time_type(t)) {
+            let (ob, oa) = (lb.ut_offset() as i64, la.ut_offset() as i64);
+            if ob < oa && t + ob <= c && c < t + oa {
+                let mut found = false;
+                let mut q = 0;
+                while q < k {
+                    if let Some(FoundDateTimeKind::Skipped { before_transition, .. }) = &data[q] {
+                        if before_transition.unix_time == t {
+                            found = true;
+                        }
+                    }
+                    q += 1;
+                }
+                assert!(found);
+            }
+        }
+        let first = match &data[0] {
+            Some(x) => entry_instant(x),
+            None => 0,
+        };
+        assert!(matches!(list.earliest(), Some(d) if d.unix_time == first && first <= entry_instant(ei)));
+        kani::cover!(matches!(ei, FoundDateTimeKind::Skipped { .. }));
+    }
+    let jx: usize = kani::any();
+    if jx < k && i < jx {
+        if let Some(ej) = &data[jx] {
+            assert!(entry_instant(ei) <= entry_instant(ej));
+            if matches!(ei, FoundDateTimeKind::Normal(_)) && matches!(ej, FoundDateTimeKind::Normal(_)) {
+                assert!(entry_instant(ei) < entry_instant(ej));
+            }
+            if ties == 0 {
+                assert!(entry_instant(ei) < entry_instant(ej));
+            }
+        }
+    }
+}
+
+#[kani::proof]
+#[kani::unwind(9)]
+#[kani::stub(crate::datetime::unix_time, stub_unix_time)]
+#[kani::stub(crate::datetime::UtcDateTime::from_timespec, stub_year_abs)]
+#[kani::stub(crate::timezone::RuleDay::unix_time, stub_rule_abs)]
+fn c05_rule_abstract() {
+    abs_rule_body(true, false);
+}
+
+#[kani::proof]
+#[kani::unwind(9)]
+#[kani::stub(crate::datetime::unix_time, stub_unix_time)]
+#[kani::stub(crate::datetime::UtcDateTime::from_timespec, stub_year_abs)]
+#[kani::stub(crate::timezone::RuleDay::unix_time, stub_rule_abs)]
+fn c06_rule_abstract() {
+    abs_rule_body(false, true);
+}
+
+// ------------------------------------------------------------------ C17, compositional: the generic search can only `push` into its list
+// (trait DateTimeList has that single method), so it issues the same push sequence to both list types; this harness decides that for
+// EVERY push sequence (<= 4 arbitrary entries) the buffer list is the min(n,k)-prefix view of the allocating list, for every buffer length.
+fn any_dt() -> DateTime {
+    DateTime {
+        year: kani::any(),
+        month: kani::any(),
+        month_day: kani::any(),
+        hour: kani::any(),
+        minute: kani::any(),
+        second: kani::any(),
+        local_time_type: any_ltt(),
+        unix_time: kani::any(),
+        nanoseconds: kani::any(),
+    }
+}
+fn any_entry() -> FoundDateTimeKind {
+    if kani::any() {
+        FoundDateTimeKind::Normal(any_dt())
+    } else {
+        FoundDateTimeKind::Skipped { before_transition: any_dt(), after_transition: any_dt() }
+    }
+}
+fn dt_id(d: Option<DateTime>) -> Option<(i64, u32, i32, i32, u8)> {
+    d.map(|d| (d.unix_time, d.nanoseconds, d.local_time_type.ut_offset(), d.year, d.second))
+}
+
+#[cfg(feature = "alloc")]
+#[kani::proof]
+#[kani::unwind(8)]
+fn c17_push_sequences() {
+    let k: usize = kani::any();
+    kani::assume(k <= 4);
+    let entries = [any_entry(), any_entry(), any_entry(), any_entry()];
+    let sentinel = Some(FoundDateTimeKind::Normal(DateTime { year: 1, month: 1, month_day: 1, hour: 0, minute: 0, second: 0, local_time_type: LocalTimeType::utc(), unix_time: 424242, nanoseconds: 7 }));
+    let mut small: [Option<FoundDateTimeKind>; 6] = [sentinel; 6];
+    let len: usize = kani::any();
+    kani::assume(len <= 6);
+    let mut v = FoundDateTimeList::default();
+    let w = if len < k { len } else { k };
+    {
+        let mut l = FoundDateTimeListRefMut::new(&mut small[..len]);
+        let mut i = 0;
+        while i < k {
+            crate::datetime::find::DateTimeList::push(&mut l, entries[i]);
+            crate::datetime::find::DateTimeList::push(&mut v, entries[i]);
+            i += 1;
+        }
+        assert!(l.count() == k);
+        assert!(l.data().len() == w);
+        assert!(l.is_exhaustive() == (len >= k));
+        let j: usize = kani::any();
+        if j < w {
+            assert!(same_entry(&l.data()[j], &Some(entries[j])));
+        }
+        if l.is_exhaustive() {
+            assert!(dt_id(l.unique()) == dt_id(v.unique()));
+            assert!(dt_id(l.earliest()) == dt_id(v.earliest()));
+            assert!(dt_id(l.latest()) == dt_id(v.latest()));
+        }
+        kani::cover!(len < k);
+        kani::cover!(len > k && k == 1);
+        kani::cover!(len == 0 && k == 2);
+    }
+    // slots beyond the reported ones are untouched
+    let j: usize = kani::any();
+    if w <= j && j < 6 {
+        assert!(same_entry(&small[j], &sentinel));
+    }
+    // the allocating list is the plain sequence
+    let inner = v.into_inner();
+    assert!(inner.len() == k);
+    let q: usize = kani::any();
+    if q < k {
+        assert!(same_entry(&Some(inner[q]), &Some(entries[q])));
+    }
+    core::mem::forget(inner);
 }
